@@ -12,6 +12,8 @@ where
 {
     pub fn receive_packet_for_verif(&mut self, keep_alive: bool) -> Result<(VarInt, Cursor<Vec<u8>>), Error> { self.receive_packet(keep_alive) }
     pub fn keep_alive_id_for_verif(&self) -> Option<u64> { self.keep_alive_id }
+    pub fn handle_keep_alive_for_verif(&mut self, id: u64) { self.handle_keep_alive(id) }
+    pub fn keep_alive_loop_for_verif(&mut self) -> Result<(), Error> { self.keep_alive::<()>() }
     pub fn set_keep_alive_id_for_verif(&mut self, id: Option<u64>) { self.keep_alive_id = id; }
     pub fn stream_for_verif(&mut self) -> &mut S { self.stream.inner_mut_for_verif() }
     pub fn max_packet_length_for_verif(&self) -> VarInt { self.max_packet_length }
